@@ -422,7 +422,7 @@ def native_replay(ctx, h, case, root, tape, tag):
     if h.get("malloc_may_fail"):
         defs["VF_FAULT_ALLOC"] = None
     src = os.path.join(root, "vf_harness", h["src"])
-    units = [os.path.join(root, u) for u in h.get("units", [])]
+    units = [os.path.join(root, u) for u in h.get("units", []) + h.get("native_units", [])]
     if not os.path.exists(exe):
         base = ["gcc", "-O1", "-g", "-w", "-fsanitize=address,undefined", "-fno-sanitize=shift-base,signed-integer-overflow", "-fno-sanitize-recover=undefined",
                 "-DMATRIXSSL_VERIF", "-DVF_NATIVE"] + def_flags(defs) + inc_flags(root) + h.get("cflags", [])
